@@ -583,6 +583,10 @@ func c09Comparators(c *Ctx, p *Prog) {
 	}
 	if fn := found["alpha"]; fn != nil {
 		ok := false
+		// strings.Compare itself put into the table
+		if fn.Pkg != nil && fn.Pkg.Pkg.Path() == "strings" && fn.Name() == "Compare" {
+			ok = true
+		}
 		for _, b := range fn.Blocks {
 			if ret, isRet := b.Instrs[len(b.Instrs)-1].(*ssa.Return); isRet {
 				if call, isCall := ret.Results[0].(*ssa.Call); isCall && objIs(calleeObj(&call.Call), "strings", "", "Compare") &&
